@@ -45,7 +45,7 @@ BaseOf(k) == CASE k \in {"short", "short2"} -> KShort [] k \in {"int", "int2", "
                [] k \in {"float", "float2"} -> KFloat [] k \in {"double", "double2", "double1"} -> KDouble
                [] k \in {"char3", "char23", "char13"} -> KwChar [] k = "enum" -> EName
 ColOfKind(k, j) ==
-  LET nm == <<"c", Digits[j + 1]>> IN
+  LET nm == CASE j = 1 -> <<"a","b","_","x">> [] j = 2 -> <<"a","b">> [] OTHER -> <<"a">> IN   \* each later name is a prefix of the earlier ones
   CASE k \in {"short", "int", "long", "float", "double", "enum"} -> Col(nm, BaseOf(k), 0, NotChar)
     [] k \in {"short2", "int2", "long2", "float2", "double2"} -> Col(nm, BaseOf(k), 2, NotChar)
     [] k \in {"int1", "double1"} -> Col(nm, BaseOf(k), 1, NotChar)
@@ -92,6 +92,12 @@ EnumTablesDoc(nr) ==
 
 (* ---- headers: 0..2 pairs, value texts over a small alphabet ---- *)
 HAlpha == {"a", SP, ";", "{", "}"}
+HeaderKeys == { <<"k","e","y">>, <<"e","n","u","m">>, <<"s","t","r","u","c","t">>, <<"t","y","p","e","d","e","f","s">>, <<"n">>, <<"N">> }   \* "n" is a column name of H; a key equal to the TABLE name is outside the domain (Appendix A)
+HeaderDocK(key, v, two) ==
+  [pairs |-> IF two THEN << << key, v >>, << <<"m","j","d">>, <<"5","4">> >> >> ELSE << << key, v >> >>,
+   enums |-> <<>>,
+   structs |-> <<[name |-> <<"H">>, cols |-> <<ColI(<<"n">>)>>]>>,
+   rows |-> <<[t |-> 1, cells |-> << <<"3">> >>]>>]
 HeaderDoc(v, two) ==
   [pairs |-> IF two THEN << << <<"k","e","y">>, v >>, << <<"m","j","d">>, <<"5","4">> >> >> ELSE << << <<"k","e","y">>, v >> >>,
    enums |-> <<>>,
@@ -137,6 +143,8 @@ Init ==
      /\ \E v \in SeqsUpTo(HAlpha, 3) : \E two \in BOOLEAN : HeaderValueOK(v) /\ Gen("headers", HeaderDoc(v, two), TRUE)
   \/ /\ "headers" \in Families
      /\ \E v \in TypedTexts : \E two \in BOOLEAN : Gen("hdrtypes", HeaderDoc(v, two), TRUE)
+  \/ /\ "headers" \in Families          \* keyword names, including the words the format itself uses
+     /\ \E key \in HeaderKeys : \E two \in BOOLEAN : Gen("hdrkeys", HeaderDocK(key, <<"v", SP, "w">>, two), TRUE)
   \/ /\ "witness" \in Families
      /\ \E d \in Witnesses : Gen("witness", d, FALSE)
   \/ /\ "kinds" \in Families
